@@ -39,6 +39,22 @@ XDMA_REGION1 = """"dart.operation"({i0}, {o}) <{{patterns = [affine_map<(d0) -> 
 {ind}  dart.yield %g{t} : !dart.stream<{to}>
 {ind}}}) {{tag = {t} : i32}} : ({tyi}, {tyo}) -> ()"""
 
+# a fused region: two generics, the second consuming the first one's stream ({k1}/{k2}: kernel op names add / mul)
+FUSED_REGION = """"dart.operation"({i0}, {i1}, {o}) <{{patterns = [affine_map<(d0) -> (d0)>, affine_map<(d0) -> (d0)>, affine_map<(d0) -> (d0)>], accelerator = "{acc}", operandSegmentSizes = array<i32: 2, 1>}}> ({{
+{ind}^bb2(%s0{t} : !dart.stream<i32>, %s1{t} : !dart.stream<i32>, %s2{t} : !dart.stream<i32>):
+{ind}  %g{t} = "dart.generic"(%s0{t}, %s1{t}) <{{library_call = "{acc}"}}> ({{
+{ind}  ^bb3(%p{t} : i32, %q{t} : i32, %r{t} : i32):
+{ind}    %kk{t} = kernel.{k1} %p{t}, %q{t} : i32, i32 -> i32
+{ind}    dart.yield %kk{t} : i32
+{ind}  }}) : (!dart.stream<i32>, !dart.stream<i32>) -> !dart.stream<i32>
+{ind}  %h{t} = "dart.generic"(%g{t}, %s1{t}) <{{library_call = "{acc}"}}> ({{
+{ind}  ^bb4(%pp{t} : i32, %qq{t} : i32, %rr{t} : i32):
+{ind}    %kl{t} = kernel.{k2} %pp{t}, %qq{t} : i32, i32 -> i32
+{ind}    dart.yield %kl{t} : i32
+{ind}  }}) : (!dart.stream<i32>, !dart.stream<i32>) -> !dart.stream<i32>
+{ind}  dart.yield %h{t} : !dart.stream<i32>
+{ind}}}) {{tag = {t} : i32}} : ({ty}, {ty}, {ty}) -> ()"""
+
 # kernels the xDMA's streamer extensions implement (kind, operand and result element types), written down independently
 XDMA_KERNELS = {("kernel.add", ("i32", "i32", "i32")), ("kernel.rescale", ("i32", "i8")), ("kernel.rescale", ("i8", "i32"))}
 
@@ -66,7 +82,8 @@ def classify(op):
         acc = op.properties.get("accelerator") or op.attributes.get("accelerator")
         if acc is not None and acc.data == "snax_xdma":
             # the data mover only runs what its extensions implement; any other kernel is an accelerator operation of
-            # the compute core like the regions of every other accelerator
+            # the compute core like the regions of every other accelerator (a fused region goes by its first kernel,
+            # as the dispatch rules document)
             return "dm" if region_kernel(op) in XDMA_KERNELS else "compute"
         return "compute"
     return "all"
@@ -89,6 +106,15 @@ def effect_handlers(record):
             I.set(a, v)
         return I.run_block(blk)
 
+    def h_cond_br(I, op):
+        c = I.get(op.cond)
+        taken = eng().branch(c != 0 if I.intmode else irsym.bv2b(c))
+        blk = op.then_block if taken else op.else_block
+        args = op.then_arguments if taken else op.else_arguments
+        for a, v in zip(blk.args, [I.get(o) for o in args]):
+            I.set(a, v)
+        return I.run_block(blk)
+
     def h_subview(I, op):
         src = I.get(op.source)
         offs = [I.get(o) for o in op.offsets]
@@ -102,6 +128,6 @@ def effect_handlers(record):
         src = I.get(op.operands[0])
         I.set(op.results[0], src)
 
-    return {"memref.copy": h, "linalg.generic": h, "dart.operation": h, "dart.schedule": h, "test.op": h, "cf.br": h_br,
+    return {"memref.copy": h, "linalg.generic": h, "dart.operation": h, "dart.schedule": h, "test.op": h, "cf.br": h_br, "cf.cond_br": h_cond_br,
             "memref.subview": h_subview, "memref.alloc": h_alloc, "memref.dealloc": h, "builtin.unrealized_conversion_cast": h_cast,
             "memref.cast": h_cast, "snax.layout_cast": h_cast}
